@@ -160,6 +160,56 @@ func runC10(r *Run) {
 		return elems10(m)[i], true
 	}
 
+	// hdr10 is the element the model tracks for the header of m (everything but the id, which a hit rewrites)
+	hdr10 := func(m *dns.Msg) uint32 {
+		return h10(fmt.Sprintf("hdr/%d/%d/%v/%v/%v/%v/%v/%v/%v/%v", m.Rcode, m.Opcode, m.Response, m.Authoritative, m.Truncated, m.RecursionDesired, m.RecursionAvailable, m.Zero, m.AuthenticatedData, m.CheckingDisabled))
+	}
+	// elemsH: the tracked elements of m in the histories: question element, non-OPT records, header element (last)
+	elemsH := func(m *dns.Msg) []uint32 { return append(elems10(m), hdr10(m)) }
+	// mutateH overwrites element i of elemsH(m) in place
+	mutateH := func(m *dns.Msg, i int, salt int) (uint32, bool) {
+		if i != len(elems10(m)) {
+			return mutate(m, i, salt)
+		}
+		switch salt % 5 {
+		case 0:
+			m.Rcode = (m.Rcode + 1 + salt%7) % 16
+		case 1:
+			m.Authoritative = !m.Authoritative
+		case 2: // what the server does
+			m.RecursionAvailable = !m.RecursionAvailable
+		case 3:
+			m.Truncated = !m.Truncated
+		default:
+			m.AuthenticatedData = !m.AuthenticatedData
+			m.Rcode = (m.Rcode + 2 + salt%5) % 16
+		}
+		return hdr10(m), true
+	}
+	// mkBare: an upstream answer without any record: header-only SERVFAIL / NXDOMAIN (no SOA) / NOERROR / REFUSED, optionally with OPT
+	mkBare := func(qname string) *dns.Msg {
+		q := new(dns.Msg)
+		q.SetQuestion(qname, dns.TypeA)
+		q.Id = uint16(r.Rng.Intn(65536))
+		m := new(dns.Msg)
+		m.SetReply(q)
+		m.Rcode = []int{dns.RcodeServerFailure, dns.RcodeServerFailure, dns.RcodeNameError, dns.RcodeNameError, dns.RcodeSuccess, dns.RcodeRefused}[r.Rng.Intn(6)]
+		m.RecursionAvailable = r.Rng.Intn(2) == 0
+		if r.Rng.Intn(3) == 0 {
+			m.SetEdns0(1232, false)
+		}
+		return m
+	}
+	nOpt10 := func(m *dns.Msg) int {
+		n := 0
+		for _, rr := range m.Extra {
+			if rr.Header().Rrtype == dns.TypeOPT {
+				n++
+			}
+		}
+		return n
+	}
+	bare10 := func(m *dns.Msg) bool { return len(elems10(m)) == 1 && len(m.Question) == 1 }
 	nop := sequence.NewChainWalker(nil, nil)
 	histories := r.N(60, 600)
 	if raceOnly {
@@ -173,9 +223,44 @@ func runC10(r *Run) {
 		}
 		c := cacheplugin.NewCache(args, cacheplugin.Opts{})
 		var handles []*dns.Msg
+		var ops, outs []string
+		var snaps []string          // what the holder of each handle last saw / wrote (full text form, id and OPT included)
+		storedOpts := map[int]int{} // key -> number of OPT records in the first hit after the latest store (-1: no hit yet)
+		var optAppended []int
+		bareP := 2 // out of 10: how often a produced answer has no record at all
+		if hi%3 == 2 {
+			bareP = 7
+		}
+		mkAny := func(qname string, variant int) *dns.Msg {
+			if r.Rng.Intn(10) < bareP {
+				return mkBare(qname)
+			}
+			return mkResp(qname, variant)
+		}
+		sharedReported := false
+		// settle: handle ci (or none: -1) was legitimately written / created by the last operation; no other held message may have changed
+		settle := func(ci int, op string) {
+			for len(snaps) < len(handles) {
+				snaps = append(snaps, handles[len(snaps)].String())
+			}
+			for i, m := range handles {
+				now := m.String()
+				if i == ci {
+					snaps[i] = now
+					continue
+				}
+				if now != snaps[i] {
+					if !sharedReported {
+						sharedReported = true
+						r.Fail("an operation on one message changed a message held by another caller (shared mutable state; for a served hit: it no longer carries the id / contents it was served with)",
+							map[string]any{"history": strings.Join(ops, ","), "last_operation": op, "changed_handle": i, "before": snaps[i], "after": now, "opt_appended_to_handles": fmt.Sprint(optAppended)})
+					}
+					snaps[i] = now
+				}
+			}
+		}
 		stored := map[int][]uint32{} // key -> snapshot of the latest store
 		storedMaxTTL := map[int]uint32{}
-		var ops, outs []string
 		keyName := func(k int) string { return fmt.Sprintf("k%d.c10.example.", k) }
 		msgKey := func(k int) string {
 			q := new(dns.Msg)
@@ -189,21 +274,27 @@ func runC10(r *Run) {
 			switch x := r.Rng.Intn(10); {
 			case x < 2 || len(handles) == 0:
 				k := r.Rng.Intn(3)
-				m := mkResp(keyName(k), hi*100+st)
+				m := mkAny(keyName(k), hi*100+st)
 				handles = append(handles, m)
-				ops = append(ops, "p:"+join10(elems10(m)))
+				ops = append(ops, "p:"+join10(elemsH(m)))
 				outs = append(outs, "-")
+				settle(len(handles)-1, "produce")
 			case x < 4:
 				ci := r.Rng.Intn(len(handles))
 				k := r.Rng.Intn(3)
 				m := handles[ci]
-				if m.Rcode != dns.RcodeSuccess || len(m.Answer) == 0 {
+				if !(m.Rcode == dns.RcodeSuccess && len(m.Answer) > 0) && !bare10(m) {
 					continue
 				}
 				if !c.VerifSave(msgKey(k), m) {
+					settle(-1, "store refused")
 					continue
 				}
-				stored[k] = elems10(m)
+				if bare10(m) {
+					r.Count("stores-of-record-less-answers")
+				}
+				stored[k] = elemsH(m)
+				storedOpts[k] = -1
 				storedMaxTTL[k] = 0
 				for _, sec := range [][]dns.RR{m.Answer, m.Ns, m.Extra} {
 					for _, rr := range sec {
@@ -214,19 +305,18 @@ func runC10(r *Run) {
 				}
 				ops = append(ops, fmt.Sprintf("s:%d:%d", k, ci))
 				outs = append(outs, "-")
+				settle(-1, "store")
 			case x == 4 && st%3 == 0: // a miss goes through Cache.Exec: the plugins behind the cache answer, the cache stores, and whoever
 				// runs after Exec returned (plugins in front of the cache, the server) rewrites the response it now owns
 				execKeys++
 				k := 2 + execKeys // never stored before: certainly a miss
-				m := mkResp(keyName(k), hi*100+st)
-				if len(m.Answer) == 0 {
-					continue
-				}
+				m := mkAny(keyName(k), hi*100+st)
 				handles = append(handles, m)
 				ci := len(handles) - 1
-				ops = append(ops, "p:"+join10(elems10(m)))
+				settle(ci, "produce")
+				ops = append(ops, "p:"+join10(elemsH(m)))
 				outs = append(outs, "-")
-				want := elems10(m)
+				want := elemsH(m)
 				node := &sequence.ChainNode{E: sequence.ExecutableFunc(func(ctx context.Context, qCtx *query_context.Context) error {
 					qCtx.SetResponse(m)
 					return nil
@@ -237,9 +327,17 @@ func runC10(r *Run) {
 				if err := c.Exec(context.Background(), qCtx, sequence.NewChainWalker([]*sequence.ChainNode{node}, nil)); err != nil {
 					fatal(err)
 				}
+				settle(ci, "Exec on a miss") // qCtx.SetResponse (called by the stub behind the cache) takes the OPT record out of the message it is given
+				if _, _, _, _, ok := c.VerifPeek(msgKey(k)); !ok {
+					continue // an answer the cache does not keep (record-less NOERROR, REFUSED)
+				}
+				if bare10(m) {
+					r.Count("stores-of-record-less-answers")
+				}
 				ops = append(ops, fmt.Sprintf("s:%d:%d", k, ci))
 				outs = append(outs, "-")
 				stored[k] = want
+				storedOpts[k] = -1
 				storedMaxTTL[k] = 0
 				for _, sec := range [][]dns.RR{m.Answer, m.Ns, m.Extra} {
 					for _, rr := range sec {
@@ -250,11 +348,12 @@ func runC10(r *Run) {
 				}
 				// Exec has returned: the response belongs to the caller again
 				for i := range want {
-					if v, ok := mutate(m, i, hi*1000+st*7+i); ok {
+					if v, ok := mutateH(m, i, hi*1000+st*7+i); ok {
 						ops = append(ops, fmt.Sprintf("m:%d:%d:%d", ci, i, v))
 						outs = append(outs, "-")
 					}
 				}
+				settle(ci, "mutate")
 				time.Sleep(300 * time.Microsecond)
 				execStoreKeys = append(execStoreKeys, k)
 				r.Count("stores-through-Exec-on-a-miss")
@@ -287,8 +386,16 @@ func runC10(r *Run) {
 					continue
 				}
 				handles = append(handles, resp)
-				got := elems10(resp)
-				desc := map[string]any{"history": strings.Join(ops, ","), "key": k, "stale_hit": lazy, "served": join10(got), "stored": join10(stored[k])}
+				got := elemsH(resp)
+				desc := map[string]any{"history": strings.Join(ops, ","), "key": k, "stale_hit": lazy, "served": join10(got), "stored": join10(stored[k]), "served_message": resp.String(), "opt_appended_to_handles": fmt.Sprint(optAppended)}
+				if len(stored[k]) == 2 {
+					r.Count("hits-of-record-less-answers")
+				}
+				if storedOpts[k] < 0 {
+					storedOpts[k] = nOpt10(resp)
+				} else if nOpt10(resp) != storedOpts[k] {
+					r.Fail("a hit carries a different number of OPT records than an earlier hit of the same stored answer (an EDNS record appended to a served message leaked into the cache)", desc)
+				}
 				if join10(got) != join10(stored[k]) {
 					r.Fail("a hit served contents that differ from what was stored under that key (a caller's mutation leaked into the cache)", desc)
 				}
@@ -304,19 +411,27 @@ func runC10(r *Run) {
 				}
 				ops = append(ops, fmt.Sprintf("h:%d:%s:%d", k, b01(lazy), q.Id))
 				outs = append(outs, fmt.Sprintf("id=%d,vals=%s", resp.Id, join10(got)))
+				settle(len(handles)-1, fmt.Sprintf("hit of key %d with id %d", k, q.Id))
 			default: // somebody mutates a message it holds
 				ci := r.Rng.Intn(len(handles))
-				n := len(elems10(handles[ci]))
-				if n == 0 {
+				if r.Rng.Intn(5) == 0 { // what the server does for an EDNS0 client (OPT records are not tracked by the model)
+					handles[ci].Extra = append(handles[ci].Extra, &dns.OPT{Hdr: dns.RR_Header{Name: ".", Rrtype: dns.TypeOPT, Class: uint16(1200 + st)}})
+					optAppended = append(optAppended, ci)
+					settle(ci, "append OPT")
 					continue
 				}
+				n := len(elemsH(handles[ci]))
 				i := r.Rng.Intn(n)
-				v, ok := mutate(handles[ci], i, hi*1000+st)
+				if r.Rng.Intn(4) == 0 {
+					i = n - 1 // the header
+				}
+				v, ok := mutateH(handles[ci], i, hi*1000+st)
 				if !ok {
 					continue
 				}
 				ops = append(ops, fmt.Sprintf("m:%d:%d:%d", ci, i, v))
 				outs = append(outs, "-")
+				settle(ci, "mutate")
 			}
 		}
 		c.Close()
@@ -343,6 +458,12 @@ func runC10(r *Run) {
 		q0.SetQuestion(name, dns.TypeA)
 		mk := cacheplugin.VerifGetMsgKey(q0)
 		orig := mkResp(name, 424242+rd)
+		if rd%4 >= 2 { // an answer without any record: header-only SERVFAIL / NXDOMAIN without SOA
+			orig = mkBare(name)
+			orig.Rcode = []int{dns.RcodeServerFailure, dns.RcodeNameError}[r.Rng.Intn(2)]
+			r.Count("concurrent-rounds:record-less-answer")
+		}
+		wantRcode := orig.Rcode
 		c.VerifSave(mk, orig)
 		want := join10(elems10(orig))
 		if lazyMode {
@@ -372,7 +493,7 @@ func runC10(r *Run) {
 						continue
 					}
 					got := join10(elems10(resp))
-					if got != want || resp.Id != q.Id {
+					if got != want || resp.Id != q.Id || resp.Rcode != wantRcode {
 						mu.Lock()
 						bad++
 						if first == "" {
@@ -390,6 +511,8 @@ func runC10(r *Run) {
 					}
 					resp.Extra = append(resp.Extra, &dns.OPT{Hdr: dns.RR_Header{Name: ".", Rrtype: dns.TypeOPT}})
 					resp.Answer = resp.Answer[:0]
+					resp.Rcode = dns.RcodeRefused
+					resp.RecursionAvailable = true
 				}
 			}(w)
 		}
@@ -414,5 +537,5 @@ func runC10(r *Run) {
 		r.Trace()
 	}
 	r.burst10(mkResp, mutate, raceOnly)
-	r.Finish("histories (8..37 operations) over the real cache plugin, plain and with lazy cache: produce a response (A / AAAA / TXT / CNAME answers, optional NS, glue, OPT), store it, serve fresh or stale hits through Cache.Exec, overwrite in place any tracked element of any message held by a caller (question element, owner name, class, record data, the slice element, TTL); 8 goroutines x 60 concurrent hits that rewrite what they were served while the producer rewrites what it stored (second pass under the race detector); 2..5 queries for one question in flight on a cold or expired entry (the upstream stub keeps the first exchange open until the others returned or queued up, and gives every exchange its own message), then each client in turn rewrites every element of its answer, appends its OPT and truncates: no other client's answer may change, a later hit serves the upstream's contents (replayed on the model as miss / look-at-handle operations; in the race pass the clients rewrite right after Exec returns)")
+	r.Finish("histories (8..37 operations) over the real cache plugin, plain and with lazy cache: produce a response (A / AAAA / TXT / CNAME answers, optional NS, glue, OPT), store it, serve fresh or stale hits through Cache.Exec, overwrite in place any tracked element of any message held by a caller (question element, owner name, class, record data, the slice element, TTL, header fields other than the id) or append an OPT record to it; answers without any record (header-only SERVFAIL / NXDOMAIN / NOERROR / REFUSED, stored through VerifSave and through Exec on a miss) are part of the histories, the header is a tracked element of its own, and after every operation the text form (id and OPT included) of every other held message must be unchanged; 8 goroutines x 60 concurrent hits that rewrite what they were served while the producer rewrites what it stored (second pass under the race detector); 2..5 queries for one question in flight on a cold or expired entry (the upstream stub keeps the first exchange open until the others returned or queued up, and gives every exchange its own message), then each client in turn rewrites every element of its answer, appends its OPT and truncates: no other client's answer may change, a later hit serves the upstream's contents (replayed on the model as miss / look-at-handle operations; in the race pass the clients rewrite right after Exec returns)")
 }
